@@ -125,6 +125,7 @@ def plan(tier, seed, kf_ids):
         notes.append("source inventory found profile-conditional or unsafe code that the argument does not cover: %s %s"
                      % (inv["cfg_debug_assertions"], inv["unsafe"]))
     return {
+        "engine_m": ["mul128", "widen"],
         "feature": "c11",
         "features": ["c04", "c05", "c06", "c07", "c18", "c12", "kf_c07_trunc_ovf", "kf_c07_wrapped"],
         "jobs": jobs,
